@@ -558,9 +558,14 @@ def viaBuilder (h : Heap) : Option V → Heap × HVal
   | some v => finishV h v
   | none => (h, .err)
 
-/-- results that stay in frozen's structures (a join yields a Relation / generic set, never a slice-backed value) -/
-def pureOther (h : Heap) : Option V → Heap × HVal
-  | some v => (h, .other v)
+/-- `a <&> b` on sequences (`GenericJoin`): per-key results are united with `Union`, i.e. element by element with `With`,
+in frozen's iteration order.  For arrays that ends as an Array in arrays allocated on the way (`withItem` always copies);
+for strings / byte arrays the order decides between a String and a generic set: modelled as "not slice-backed". -/
+def joinResult (h : Heap) : Option V → Heap × HVal
+  | some v =>
+    (match decodeSeq v with
+     | some (.A, ps) => asSeq .A h ps
+     | _ => (h, .other v))
   | none => (h, .err)
 
 /-- a Go string/[]byte conversion of a computed result (`rel.NewString([]rune(…))`): fresh array, oracle's spare room -/
@@ -707,8 +712,8 @@ def run1 (rep : Bool) (orc : Oracle) (st : St) : Op → Heap × HVal
   | .concat i j =>      -- Concatenate: enumerate both into a SetBuilder, Finish
     viaBuilder st.h (Spec.concat (snap st.h (st.vals.getD i .err)) (snap st.h (st.vals.getD j .err)))
   | .union i j => unionV rep orc st.h (st.vals.getD i .err) (st.vals.getD j .err)
-  | .join i j =>        -- Join: frozen's structures
-    pureOther st.h (Spec.join (snap st.h (st.vals.getD i .err)) (snap st.h (st.vals.getD j .err)))
+  | .join i j =>
+    joinResult st.h (Spec.join (snap st.h (st.vals.getD i .err)) (snap st.h (st.vals.getD j .err)))
   | .rest i k => (st.h, restV st.h (st.vals.getD i .err) k false)
   | .front i k => (st.h, restV st.h (st.vals.getD i .err) k true)
   | .trimPrefix p s =>
